@@ -38,9 +38,9 @@ package crypto
 //@   safety
 //@   modifies nothing
 //@   loop 1 unroll 3
-//@   call (*base64.Encoding).DecodeString #1 requires [each-segment-decoded-strictly-as-raw-base64url] arg(0) == ret(call (base64.Encoding).Strict #1)
-//@        && same(arg(call (base64.Encoding).Strict #1, 0), *base64.RawURLEncoding) && arg(1) == string(segment)
-//@        && segment == ret(call bytes.Split #1)[$iter1]
+// (strict or not: stray bits are caught by the comparison with the re-encoding)
+//@   call (*base64.Encoding).DecodeString #1 requires [each-segment-decoded-as-raw-base64url] arg(1) == string(segment) && segment == ret(call bytes.Split #1)[$iter1]
+//@        && (arg(0) == base64.RawURLEncoding || (arg(0) == ret(call (base64.Encoding).Strict #1) && same(arg(call (base64.Encoding).Strict #1, 0), *base64.RawURLEncoding)))
 //@   call (*base64.Encoding).EncodeToString #1 requires [the-decoded-bytes-are-encoded-again] arg(0) == base64.RawURLEncoding && arg(1) == ret(call (*base64.Encoding).DecodeString #1).0
 //@        && isNilIface(ret(call (*base64.Encoding).DecodeString #1).1) && arg(call (*base64.Encoding).DecodeString #1, 1) == string(segment)
 //@   ensures [three-segments-all-canonical] isNilIface(result) ==> arg(call bytes.Split #1, 0) == token && len(arg(call bytes.Split #1, 1)) == 1 && arg(call bytes.Split #1, 1)[0] == 46
